@@ -347,6 +347,46 @@ func suiteC13(r *Run) {
 			r.Sample(map[string]interface{}{"case": c, "handler_md": mdArg(seenMD), "peer_option_auth": fmt.Sprintf("%T", pr.AuthInfo)})
 		}
 	}
+	// the peer option after a call the server rejected at the HTTP level (unknown method: 404), unary and streaming
+	for _, tpName := range []string{"httpnet", "httptls"} {
+		for _, streaming := range []bool{false, true} {
+			hs := httpgrpc.NewServer()
+			grpchantesting.RegisterTestServiceServer(hs, &scriptServer{})
+			var ts *httptest.Server
+			if tpName == "httptls" {
+				ts = httptest.NewTLSServer(hs)
+			} else {
+				ts = httptest.NewServer(hs)
+			}
+			u, _ := url.Parse(ts.URL + "/")
+			ch := &httpgrpc.Channel{Transport: ts.Client().Transport, BaseURL: u}
+			var pr peer.Peer
+			var err error
+			if !streaming {
+				err = ch.Invoke(context.Background(), "/grpchantesting.TestService/NoSuchMethod", &Msg{}, &Msg{}, grpc.Peer(&pr))
+			} else {
+				var cs grpc.ClientStream
+				cs, err = ch.NewStream(context.Background(), descSStream, "/grpchantesting.TestService/NoSuchStream", grpc.Peer(&pr))
+				if err == nil {
+					cs.SendMsg(&Msg{})
+					cs.CloseSend()
+					var m Msg
+					err = cs.RecvMsg(&m)
+				}
+			}
+			ts.Close()
+			c := map[string]interface{}{"transport": tpName, "streaming": streaming, "op": "call-rejected-with-404", "peer_option": true}
+			r.Eval(fmt.Sprint("peer-after-404", tpName, streaming), true)
+			r.Count("peer-after-http-rejection")
+			if err == nil {
+				r.Violate("peer/unknown-method-succeeded", "unknown methods fail", "call to an unknown method returned nil", c, "")
+			} else if pr.Addr == nil || pr.Addr.String() == "" {
+				r.Violate("peer/option-missing", "the peer call option reports the remote address, for unary and streaming calls alike (a call the server answered with an error has talked to that peer too)", sprintf("%s streaming=%v, server answered 404 (%v): peer option %+v", tpName, streaming, err, pr), c, "")
+			} else if _, isTLS := pr.AuthInfo.(credentials.TLSInfo); tpName == "httptls" && !isTLS {
+				r.Violate("peer/option-no-tls-after-rejection", "TLS authentication info whenever the connection uses TLS", sprintf("https, server answered 404: AuthInfo %T", pr.AuthInfo), c, "")
+			}
+		}
+	}
 	_ = tls.VersionTLS12
 	// only "https" counts as secure: a base URL whose scheme is anything else (also "HTTP", "Https" written
 	// in a struct literal, "ws", or empty) must not let credentials that require transport security through
